@@ -31,6 +31,11 @@ type Config struct {
 	ArbitrationNs      int64  `json:"arbitration_ns"`
 	ComplaintNs        int64  `json:"complaint_ns"`
 
+	// WhaleAccount >= 0: that account starts with WhaleBalance (a decimal string above 2^63) instead of Balances[i]; the
+	// harness then tracks balances saturating at MaxInt64 (only the C20 profile uses it: replicas and panics, no money oracle)
+	WhaleAccount int    `json:"whale_account"`
+	WhaleBalance string `json:"whale_balance,omitempty"`
+
 	ModuleService bool `json:"module_service"` // register the reserved module service + genesis def/binding
 	Replicas      int  `json:"replicas"`       // >=1
 	DrainBlocks   int  `json:"drain_blocks"`   // fault-free blocks appended by the executor at the end
